@@ -698,6 +698,13 @@ func (x *xtr) call(c *ast.CallExpr) xval {
 			return xval{s: "(BitVec.toNat " + paren(a.s) + " : Int)", ty: tInt} // uint8 → int: exact
 		}
 	case "float32", "float64":
+		if x.sp.FloatAbs != "" && name == "float32" && len(c.Args) == 1 && selName(c.Args[0]) == "math.MaxFloat32" {
+			// the largest finite float32 as an abstract value of the float type
+			if !x.prims["maxFloat32"] {
+				x.bad(c, "float32(math.MaxFloat32) needs the parameter maxFloat32 (spec.Prims)")
+			}
+			return xval{s: "maxFloat32", ty: &xty{k: kOrd, name: x.sp.FloatAbs}}
+		}
 		if x.sp.FloatSym {
 			need(1)
 			a := x.expr(c.Args[0])
@@ -726,6 +733,15 @@ func (x *xtr) call(c *ast.CallExpr) xval {
 		if x.sp.FloatSym {
 			need(2)
 			return xval{s: fmt.Sprintf("Go.FExpr.min %s %s", paren(x.co(c.Args[0], x.expr(c.Args[0]), tF64)), paren(x.co(c.Args[1], x.expr(c.Args[1]), tF64))), ty: tF64}
+		}
+	case "uint8", "byte":
+		need(1)
+		a := x.expr(c.Args[0])
+		if a.ty.k == kByte {
+			return a
+		}
+		if a.ty.k == kInt {
+			return xval{s: "BitVec.ofInt 8 " + paren(a.s), ty: tBytex} // exact (keeps the low 8 bits like Go)
 		}
 	case "uint64":
 		need(1)
